@@ -90,7 +90,7 @@ func (r *Run) Add(o Obligation) {
 	// a violation reported on a function whose code uses constructs the evaluators do
 	// not model is recorded as "not decided" (with the construct named): the rule
 	// could not follow the code, which is not evidence that the code is wrong
-	if o.Status == Violation && r.Soften != nil {
+	if (o.Status == Violation || o.Status == Undecided && o.Func != "" && o.Func != "-" && !strings.HasSuffix(o.Key, ":anchor") && !strings.HasSuffix(o.Key, ":floor")) && r.Soften != nil {
 		if why := r.Soften(o.Func, o.Rule); why != "" {
 			o.Status = Info
 			o.What = "not decided for this shape: " + o.What + " — " + why + " [the rule reported: " + o.Detail + "]"
